@@ -209,6 +209,13 @@ def e_tone(c):
         for kk, gg in zip(ks, gains):
             ik = int(np.argmin(np.abs(f - kk * fs / N)))
             check(abs(abs(H[ik]) ** 2 - gg) <= 1e-6, "retH!=applied-filter", f"bin {kk}: |H|^2 {abs(H[ik]) ** 2:.8f} vs measured gain {gg:.8f}")
+        # the same through the explicit fs= argument while gv holds another sampling rate: same grid, same response
+        gv(sps=sps, fs=fs * 2.5)
+        out2, H2 = lib(D.LPF, x, BW, order, fs, True)
+        gv(sps=sps, fs=fs)
+        check(np.array_equal(out2.signal, out.signal), "lpf-fs-argument-ignored", "")
+        check(isinstance(H2, np.ndarray) and H2.shape == (N,) and np.max(np.abs(H2 - H)) <= 1e-9, "retH-on-the-wrong-grid-with-explicit-fs",
+              f"max |H(fs=...) - H| = {np.max(np.abs(H2 - H)) if isinstance(H2, np.ndarray) and H2.shape == (N,) else 'shape'}")
     return {"nontrivial": order != 4 or kc / N < 0.05 or kc / N > 0.3 or not lpf, "classes": [c["which"], f"order{order}", "odd-N" if N % 2 else "even-N", c["gv"]["form"]]}
 
 
